@@ -2,6 +2,7 @@ package rules
 
 import (
 	"fmt"
+	"os"
 	"strings"
 
 	"golang.org/x/tools/go/ssa"
@@ -29,13 +30,32 @@ func ruleCombinators(c *Ctx, rule string) {
 		ctor := c.P.MustFunc(comb.key)
 		var bad []string
 		n := 0
-		for _, accepts := range []bool{true, false} {
-			accepts := accepts
+		snapRejects, snapSets := 0, 0
+		for _, scen := range []struct {
+			accepts bool
+			empty   int // the context holds no parameter when the combinator is asked
+		}{{true, 1}, {true, -1}, {false, 1}, {false, -1}} {
+			accepts, empty := scen.accepts, scen.empty
 			se := &symEval{c: c}
-			se.elem = func(slice string) string { return "MEMBER" } // whatever list the members were put into
+			found := 0 // inside the callback of Context.Range: is the visited key in the looked-up map
+			se.elem = func(slice string) string {
+				if strings.Contains(slice, "MakeMap") || slice == "NIL" || strings.Contains(slice, "params") {
+					return "" // a map of parameters
+				}
+				return "MEMBER" // whatever list the members were put into
+			}
 			se.truth = func(e string) int {
 				if e == "ACCEPTS" {
 					return pm(accepts)
+				}
+				if strings.HasPrefix(e, "FOUND(") && strings.HasSuffix(e, ",PK)") {
+					return found
+				}
+				switch e {
+				case "EQ(COUNT(CTX),CONST:0)", "EQ(CONST:0,COUNT(CTX))", "LE(COUNT(CTX),CONST:0)", "LT(COUNT(CTX),CONST:1)":
+					return empty
+				case "NE(COUNT(CTX),CONST:0)", "NE(CONST:0,COUNT(CTX))", "GT(COUNT(CTX),CONST:0)", "GE(COUNT(CTX),CONST:1)":
+					return -empty
 				}
 				return 0
 			}
@@ -46,7 +66,40 @@ func ruleCombinators(c *Ctx, rule string) {
 						parts = append(parts, a.e)
 					}
 					st.effects = append(st.effects, "ASK("+strings.Join(parts, ",")+")")
+					// a member that accepted may have rewritten the path and recorded parameters
+					st.heap["R.URL.Path"] = sv("PATH-AFTER-MEMBER")
 					return []sval{sv("ACCEPTS")}, true
+				}
+				switch name {
+				case "types.(*Context).Count":
+					return []sval{sv("COUNT(" + args[0].e + ")")}, true
+				case "types.(*Context).Delete":
+					st.effects = append(st.effects, "DELETE("+args[0].e+","+args[1].e+")")
+					return []sval{sv("VOID")}, true
+				case "types.(*Context).Set":
+					st.effects = append(st.effects, "SET("+args[0].e+","+args[1].e+","+args[2].e+")")
+					return []sval{sv("VOID")}, true
+				case "types.(*Context).Range":
+					if len(args) != 2 || args[1].e != "FUNC" {
+						return nil, false
+					}
+					// the callback, evaluated for a key that is / is not in the map it looks the key up in
+					var parts []string
+					for _, sc := range []struct {
+						name string
+						v    int
+					}{{"found", 1}, {"missing", -1}} {
+						found = sc.v
+						sub := &sstate{env: map[ssa.Value]sval{}, heap: map[string]sval{}}
+						var effs []string
+						for _, r := range se.run(args[1].fn, []sval{sv("PK"), sv("PV")}, args[1].free, sub, 1) {
+							effs = append(effs, strings.Join(r.st.effects, ","))
+						}
+						parts = append(parts, sc.name+":"+strings.Join(effs, "|"))
+					}
+					found = 0
+					st.effects = append(st.effects, "EACH("+args[0].e+"){"+strings.Join(parts, ";")+"}")
+					return []sval{sv("VOID")}, true
 				}
 				return nil, false
 			}
@@ -78,15 +131,38 @@ func ruleCombinators(c *Ctx, rule string) {
 					ret = sv("CONST:false")
 				}
 				asked := false
+				var before, after []string // the combinator's own effects before the first and after the last member
 				for _, e := range r.st.effects {
 					if strings.HasPrefix(e, "ASK(") {
+						if asked && len(after) > 0 {
+							bad = append(bad, "between two members the combinator has the effect "+strings.Join(after, ", "))
+						}
 						asked = true
+						after = nil
 						if e != "ASK(MEMBER,R,CTX)" {
 							bad = append(bad, "a member is asked with "+e[4:len(e)-1]+" instead of (member, request, context)")
 						}
+					} else if !asked {
+						before = append(before, e)
 					} else {
-						bad = append(bad, "the combinator has the effect "+e)
+						after = append(after, e)
 					}
+				}
+				rejects := se2.truthOf(r.ret[0]) == -1 || r.ret[0].e == "CONST:false"
+				bad = append(bad, combinatorEffects(comb.and, asked, rejects && !accepts, before, after)...)
+				if comb.and && asked && rejects && !accepts && len(before) == 0 && empty == -1 {
+					bad = append(bad, "And rejects after a member was asked and has no snapshot of the parameters the context held before: what a member overwrote or the context held cannot be put back")
+				}
+				if comb.and && asked && rejects && !accepts && len(before) > 0 {
+					snapRejects++
+					for _, e := range after {
+						if strings.HasPrefix(e, "SET(CTX,KEY(UNK:*ssa.MakeMap),") {
+							snapSets++
+						}
+					}
+				}
+				if os.Getenv("MUXLINT_DEBUG_COMB") != "" {
+					fmt.Fprintf(os.Stderr, "%s accepts=%v ret=%s before=%q after=%q\n", comb.key, accepts, r.ret[0].e, before, after)
 				}
 				want := ""
 				switch {
@@ -107,6 +183,9 @@ func ruleCombinators(c *Ctx, rule string) {
 		if n == 0 {
 			bad = append(bad, "no path evaluated")
 		}
+		if snapRejects > 0 && snapSets == 0 {
+			bad = append(bad, "And rejects after a member was asked without setting the parameters of its snapshot again: a parameter a member overwrote keeps the value of a rejected alternative")
+		}
 		seen := map[string]bool{}
 		var msgs []string
 		for _, b := range bad {
@@ -118,4 +197,48 @@ func ruleCombinators(c *Ctx, rule string) {
 		what := ifelse(comb.and, "true iff every member accepts", "true iff some member accepts")
 		c.R.Add(rule, comb.key, "verdict:"+ifelse(comb.and, "all", "any")+"-members", c.P.Pos(ctor.Pos()), len(msgs) == 0, ifelse(len(msgs) == 0, fmt.Sprintf("%s (%d paths evaluated)", what, n), "the combinator is not "+what+": "+strings.Join(msgs, "; ")))
 	}
+}
+
+// combinatorEffects judges what a combinator does besides asking its members.
+//
+// Or, and And on an accepting path: nothing (saving the state before the first member is allowed: a snapshot of the
+// parameters into a fresh map). And on a path that rejects after a member was asked — earlier members may have
+// rewritten the path and recorded parameters, and a rejecting matcher leaves no trace (the Matcher contract) — puts
+// back the path it read before the first member, deletes every parameter that is not in its snapshot and sets
+// every parameter of the snapshot.
+func combinatorEffects(and, asked, rejectsAfterAsk bool, before, after []string) []string {
+	var bad []string
+	const snapshot = "EACH(CTX){found:MAPSET UNK:*ssa.MakeMap[PK] = PV;missing:MAPSET UNK:*ssa.MakeMap[PK] = PV}"
+	for _, e := range before {
+		if e != snapshot {
+			bad = append(bad, "before asking a member the combinator has the effect "+e)
+		}
+	}
+	if !and || !asked || !rejectsAfterAsk {
+		for _, e := range after {
+			bad = append(bad, "the combinator has the effect "+e)
+		}
+		return bad
+	}
+	restoredPath, deletes, sets := false, false, false
+	for _, e := range after {
+		switch {
+		case e == "STORE R.URL.Path = R.URL.Path":
+			restoredPath = true // the value read before the first member (afterwards the location holds PATH-AFTER-MEMBER)
+		case strings.HasPrefix(e, "EACH(CTX){found:;missing:DELETE(CTX,PK)}"):
+			deletes = true
+		case strings.HasPrefix(e, "SET(CTX,KEY("):
+			sets = true
+		default:
+			bad = append(bad, "while rejecting the combinator has the effect "+e)
+		}
+	}
+	if !restoredPath {
+		bad = append(bad, "And rejects after a member was asked without putting back the request path it found: a member that accepted (a path-version matcher) has cut the path, and the matchers and routers asked next see the shortened path")
+	}
+	if !deletes {
+		bad = append(bad, "And rejects after a member was asked without deleting the parameters recorded since: a parameter of a member that accepted stays in the context")
+	}
+	_ = sets // the snapshot may be empty (nil when the context held no parameter)
+	return bad
 }
